@@ -284,6 +284,20 @@ def forbidden_ctor_cases():
     return out
 
 
+def legal_ctor_cases():
+    """every other regex-literal ASCII punctuation mark (and a few letters, digits, non-ASCII marks) is a LEGAL separator
+    character: alone, doubled and inside a longer separator, at each level - the forbidden set is exactly the documented one"""
+    out = []
+    for c in ',;/=@<>_"' .replace('"', '') + 'a7' + '§·‖':
+        for lvl in range(3):
+            for form in (c, 'x' + c, c + c, ';e' + c + 'w'):
+                for base in (['~~', ';esyll', ';eword'], [None, None, None]):
+                    sep = [b if b != '~~' else 'PH' for b in base]
+                    sep[lvl] = form
+                    out.append(ctor_case(tuple(sep), 'ctor-legal'))
+    return out
+
+
 def main():
     ck = Check('C08')
     failures = ck.prove()
@@ -350,6 +364,7 @@ def main():
     for k in range(1500 if ck.thorough else 250):
         cases.append(ctor_case((rng.choice(pool), rng.choice(pool), rng.choice(pool)), 'ctor'))
     cases.extend(forbidden_ctor_cases())
+    cases.extend(legal_ctor_cases())
     for c in cases:
         ck.count('family:' + c['desc']['family'])
     correspond(ck, cases)
